@@ -256,6 +256,9 @@ func analyse(meta *propMeta, cfg LoadConfig) (rep *Report, p *Prog, err error) {
 	for _, extra := range round4Rules[meta.ID] {
 		extra(p, rep)
 	}
+	for _, extra := range round5Rules[meta.ID] {
+		extra(p, rep)
+	}
 	if registry[meta.ID] != nil {
 		anchoredGeneralRules(p, rep, meta.ID)
 		crossPropertyRules(p, rep, meta.ID)
